@@ -240,7 +240,7 @@ def generate(rng, tier):
 
     # 8. from_string
     valid_prv, valid_pub = [], []
-    for _ in range(2 if quick else 8):
+    for _ in range(2 if quick else 5):
         k, cc = rkey(rng), rb(rng, 32)
         d, ix, fp = rng.randrange(256), rng.randrange(2 ** 32), rb(rng, 4)
         sp = b58check(payload_priv(k, cc, d, ix, fp))
@@ -262,7 +262,7 @@ def generate(rng, tier):
             else:
                 for p in range(len(s)):
                     alts = [a for a in ALPHA if a != s[p]]
-                    for c in (alts if si == 0 else rng.sample(alts, 4)):
+                    for c in (alts if si == 0 else rng.sample(alts, 2)):
                         A(op, [T(s[:p] + c + s[p + 1:])])
         s = strs[0]
         # deletions, insertions, non-alphabet characters, truncations
